@@ -91,6 +91,8 @@ package cors
 
 //@ func internalConfig.validateMethods
 //@   props C04 C05 C08 C15 C17
+//@   local allowedMethods util.Set
+//@   local errs []error
 //@   frozen E! F!util_Set
 //@   uses mem_empty
 //@   requires icfg != nil && icfg > 0
@@ -118,6 +120,8 @@ package cors
 
 //@ func internalConfig.validateRequestHeaders
 //@   props C04 C05 C06 C08 C15 C17
+//@   local allowedHeaders util.SortedSet
+//@   local errs []error
 //@   frozen E! F!util_Set
 //@   uses mem_empty
 //@   requires icfg != nil && icfg > 0
@@ -151,6 +155,9 @@ package cors
 
 //@ func internalConfig.validateResponseHeaders
 //@   props C04 C05 C06 C08 C15 C17
+//@   local errs []error
+//@   local exposeAllResHdrs bool
+//@   local exposedHeaders util.Set
 //@   frozen E! F!util_Set
 //@   uses mem_empty
 //@   requires icfg != nil && icfg > 0
@@ -174,6 +181,10 @@ package cors
 
 //@ func internalConfig.validateOrigins
 //@   props C01 C04 C05 C06 C08 C15 C17
+//@   local allowAnyOrigin bool
+//@   local errs []error
+//@   local pna bool
+//@   local tree origins.Tree
 //@   frozen E!Str E!Int F!util_Set
 //@   requires icfg != nil && icfg > 0
 //@   requires icfg.tree.root.schemes == nil && icfg.tree.root.children == nil && len(icfg.tree.root.edges) == 0 && len(icfg.tree.root.ports) == 0
